@@ -6,6 +6,11 @@
  *   selfmap <chk offsets "off:class,..."> <set offsets>   classes: L load, X cmpxchg, C compare, S store
  *   selfrun <nthreads> <ncalls> <aes result> <sha result> <entry: t|k> <schedule digits...>
  *
+ *   selfstall <nthreads> <stall ms> <aes result> <sha result> <entry: t|k>
+ *       free-running variant (no single-stepping): thread 0 makes the first call and is held inside the AES stage for
+ *       <stall ms>; the other threads make their first call meanwhile (they really spin), one more call follows the end.
+ *       Covers schedules in which a waiter polls millions of times, which the stepped scheduler cannot reach.
+ *
  * Events: SReset, Call{t}, Acc{t,k,eax,zf,st}, RunAes{t}, RunSha{t}, TestsDone{t,res}, Ret{t,rv}, Stuck, SEnd */
 #define _GNU_SOURCE
 #include "core.h"
@@ -15,7 +20,13 @@
 #include <semaphore.h>
 #include <signal.h>
 #include <ucontext.h>
+#include <unistd.h>
+#include <time.h>
 #include <aes_keyexp.h>
+#include <aes_gcm.h>
+#include <sha1_mb.h>
+#include <sha256_mb.h>
+#include <sha512_mb.h>
 #include <isal_crypto_api.h>
 
 extern int __real_asm_check_self_tests_status(void);
@@ -36,6 +47,11 @@ static __thread int pending;  /* class of the shared access that has just execut
 static uintptr_t chk_lo, chk_hi, set_lo, set_hi;
 static char chk_map[256], set_map[64];
 static volatile int controlled; /* a selfrun is in progress */
+static volatile int free_mode;  /* selfstall: threads run freely, events are ordered by ev_mx */
+static pthread_mutex_t ev_mx = PTHREAD_MUTEX_INITIALIZER;
+static sem_t inside;
+static volatile int aes_entries;
+static int stall_ms;
 
 static void
 stop_point(void)
@@ -47,11 +63,15 @@ stop_point(void)
 static void
 log_ev(const char *name, int t, const char *extra)
 {
+        if (free_mode)
+                pthread_mutex_lock(&ev_mx);
         ev_begin(name);
         ev_int("t", t);
         if (extra)
                 ev_raw("x", extra);
         ev_end();
+        if (free_mode)
+                pthread_mutex_unlock(&ev_mx);
 }
 
 static char
@@ -109,7 +129,7 @@ tf_off(void)
 int
 __wrap_asm_check_self_tests_status(void)
 {
-        if (!controlled || me < 0)
+        if (!controlled || me < 0 || free_mode)
                 return __real_asm_check_self_tests_status();
         stepping = 1;
         tf_on();
@@ -121,7 +141,7 @@ __wrap_asm_check_self_tests_status(void)
 void
 __wrap_asm_set_self_tests_status(int v)
 {
-        if (!controlled || me < 0) {
+        if (!controlled || me < 0 || free_mode) {
                 __real_asm_set_self_tests_status(v);
                 return;
         }
@@ -136,6 +156,14 @@ __wrap__aes_self_tests(void)
 {
         if (!controlled || me < 0)
                 return __real__aes_self_tests();
+        if (free_mode) {
+                log_ev("RunAes", me, NULL);
+                if (__sync_fetch_and_add(&aes_entries, 1) == 0) {
+                        sem_post(&inside);
+                        usleep((useconds_t) stall_ms * 1000);
+                }
+                return res_aes == -9 ? __real__aes_self_tests() : res_aes;
+        }
         stop_point();
         log_ev("RunAes", me, NULL);
         return res_aes == -9 ? __real__aes_self_tests() : res_aes;
@@ -145,14 +173,61 @@ __wrap__sha_self_tests(void)
 {
         if (!controlled || me < 0)
                 return __real__sha_self_tests();
-        stop_point();
+        if (!free_mode)
+                stop_point();
         log_ev("RunSha", me, NULL);
         int r = res_sha == -9 ? __real__sha_self_tests() : res_sha;
-        ev_begin("TestsDone");
+        if (free_mode)
+                pthread_mutex_lock(&ev_mx);
+        ev_begin("TestsDone");  /* logged before the verdict is published */
         ev_int("t", me);
         ev_int("sha", r);
         ev_end();
+        if (free_mode)
+                pthread_mutex_unlock(&ev_mx);
         return r;
+}
+
+static int
+one_call(void)
+{
+        /* entry kinds: t isal_self_tests, k AES key expansion, a/b/c SHA-256/SHA-1/SHA-512 manager init, g GCM precompute,
+         * m mixed (by thread index) - every approved entry point must obey the same gate */
+        int kind = entry_kind;
+        if (kind == 'm')
+                kind = "kabcgt"[(me < 0 ? 0 : me) % 6];
+        switch (kind) {
+        case 'k': {
+                uint8_t key[16] = { 1, 2, 3 }, enc[16 * 11], dec[16 * 11];
+                return isal_aes_keyexp_128(key, enc, dec);
+        }
+        case 'a': {
+                static __thread ISAL_SHA256_HASH_CTX_MGR *m;
+                if (!m && posix_memalign((void **) &m, 64, sizeof *m))
+                        die("oom");
+                return isal_sha256_ctx_mgr_init(m);
+        }
+        case 'b': {
+                static __thread ISAL_SHA1_HASH_CTX_MGR *m;
+                if (!m && posix_memalign((void **) &m, 64, sizeof *m))
+                        die("oom");
+                return isal_sha1_ctx_mgr_init(m);
+        }
+        case 'c': {
+                static __thread ISAL_SHA512_HASH_CTX_MGR *m;
+                if (!m && posix_memalign((void **) &m, 64, sizeof *m))
+                        die("oom");
+                return isal_sha512_ctx_mgr_init(m);
+        }
+        case 'g': {
+                static __thread struct isal_gcm_key_data *kd;
+                uint8_t key[16] = { 9, 8, 7 };
+                if (!kd && posix_memalign((void **) &kd, 64, sizeof *kd))
+                        die("oom");
+                return isal_aes_gcm_pre_128(key, kd);
+        }
+        default: return isal_self_tests();
+        }
 }
 
 static void *
@@ -165,12 +240,7 @@ worker(void *arg)
         for (int c = 0; c < ncalls; c++) {
                 stop_point();
                 log_ev("Call", me, NULL);
-                int rv;
-                if (entry_kind == 'k') {
-                        uint8_t key[16] = { 1, 2, 3 }, enc[16 * 11], dec[16 * 11];
-                        rv = isal_aes_keyexp_128(key, enc, dec);
-                } else
-                        rv = isal_self_tests();
+                int rv = one_call();
                 stop_point();
                 ev_begin("Ret");
                 ev_int("t", me);
@@ -179,6 +249,24 @@ worker(void *arg)
         }
         done[me] = 1;
         sem_post(&arrived);
+        return NULL;
+}
+
+static void *
+free_worker(void *arg)
+{
+        me = (int) (intptr_t) arg;
+        for (int c = 0; c < ncalls; c++) {
+                log_ev("Call", me, NULL);
+                int rv = one_call();
+                pthread_mutex_lock(&ev_mx);
+                ev_begin("Ret");
+                ev_int("t", me);
+                ev_int("rv", rv);
+                ev_end();
+                pthread_mutex_unlock(&ev_mx);
+        }
+        done[me] = 1;
         return NULL;
 }
 
@@ -235,7 +323,7 @@ do_selfrun(const cmd *c)
         ev_int("calls", ncalls);
         ev_int("aes", res_aes);
         ev_int("sha", res_sha);
-        ev_str("entry", entry_kind == 'k' ? "keyexp" : "selftests");
+        { char ek[2] = { (char) entry_kind, 0 }; ev_str("entry", entry_kind == 'k' ? "keyexp" : entry_kind == 't' ? "selftests" : ek); }
         ev_end();
         controlled = 1;
         for (int i = 0; i < nthr; i++) {
@@ -290,9 +378,76 @@ do_selfrun(const cmd *c)
         ev_end();
 }
 
+static void
+do_selfstall(const cmd *c)
+{
+        nthr = (int) cmd_i(c, 1);
+        stall_ms = (int) cmd_i(c, 2);
+        res_aes = (int) cmd_i(c, 3);
+        res_sha = (int) cmd_i(c, 4);
+        entry_kind = c->t[5][0];
+        ncalls = 2; /* the second call of every thread comes after its first returned: "later calls return the verdict" */
+        find_status_word();
+        __real_asm_set_self_tests_status(2);
+        sem_init(&inside, 0, 0);
+        aes_entries = 0;
+        ev_begin("SReset");
+        ev_int("n", nthr);
+        ev_int("calls", ncalls);
+        ev_int("aes", res_aes);
+        ev_int("sha", res_sha);
+        { char ek[2] = { (char) entry_kind, 0 }; ev_str("entry", entry_kind == 'k' ? "keyexp" : entry_kind == 't' ? "selftests" : ek); }
+        ev_int("free", 1);
+        ev_end();
+        free_mode = 1;
+        controlled = 1;
+        pthread_t th[MAXT];
+        for (int i = 0; i < nthr; i++)
+                done[i] = 0;
+        pthread_create(&th[0], NULL, free_worker, (void *) (intptr_t) 0);
+        struct timespec ts;
+        clock_gettime(CLOCK_REALTIME, &ts);
+        ts.tv_sec += 5;
+        sem_timedwait(&inside, &ts); /* thread 0 is inside the AES stage (or the tests never started: reported by the spec) */
+        for (int i = 1; i < nthr; i++)
+                pthread_create(&th[i], NULL, free_worker, (void *) (intptr_t) i);
+        /* everybody must be back soon after the stall ends */
+        int alive = 1;
+        for (int w = 0; w < (stall_ms + 20000) / 10 && alive; w++) {
+                alive = 0;
+                for (int i = 0; i < nthr; i++)
+                        alive |= !done[i];
+                if (alive)
+                        usleep(10000);
+        }
+        if (alive) {
+                pthread_mutex_lock(&ev_mx);
+                ev_begin("Stuck");
+                ev_int("st", *st_word);
+                ev_end();
+                ev_begin("SEnd");
+                ev_int("st", *st_word);
+                ev_end();
+                if (ev_fp)
+                        fflush(ev_fp);
+                _exit(0);
+        }
+        for (int i = 0; i < nthr; i++)
+                pthread_join(th[i], NULL);
+        controlled = 0;
+        free_mode = 0;
+        ev_begin("SEnd");
+        ev_int("st", *st_word);
+        ev_end();
+}
+
 int
 self_cmd(const cmd *c)
 {
+        if (!strcmp(c->t[0], "selfstall")) {
+                do_selfstall(c);
+                return 1;
+        }
         if (!strcmp(c->t[0], "selfmap")) {
                 chk_lo = (uintptr_t) __real_asm_check_self_tests_status;
                 set_lo = (uintptr_t) __real_asm_set_self_tests_status;
